@@ -50,7 +50,7 @@ WORLDS = {
     "W64-575q": (["FP_PRIME=575", "FP_QNRES=on", "BN_PRECI=3072"], ""),
     "W64-638": (["FP_PRIME=638"], ""),
     "W64-544": (["FP_PRIME=544"], ""),
-    # PROBE-BEGIN
+    # the remaining pairing field sizes (one selectable family each): thorough tier only
     "W64-158": (["FP_PRIME=158"], ""),
     "W64-254": (["FP_PRIME=254"], ""),
     "W64-317": (["FP_PRIME=317"], ""),
@@ -65,7 +65,6 @@ WORLDS = {
     "W64-765": (["FP_PRIME=765", "BN_PRECI=3072"], ""),
     "W64-766": (["FP_PRIME=766", "BN_PRECI=3072"], ""),
     "W64-768": (["FP_PRIME=768", "BN_PRECI=3072"], ""),
-    # PROBE-END
     "W64-638q": (["FP_PRIME=638", "FP_QNRES=on", "BN_PRECI=2048"], ""),
     "W64-dyn-san": (["ALLOC=DYNAMIC"], SAN),
     "W64-mt": (["MULTI=PTHREAD"], ""),
